@@ -579,6 +579,7 @@ func c10exec(c *h.Ctx, cs *h.Case) {
 	churned := 0
 	churnT0 := time.Now()
 	closedOnce := false
+	srvTCP, wsBase := false, 0
 	diverged := false
 	id := fmt.Sprintf("%d-%s", time.Now().UnixNano(), cs.ID)
 	goBefore := runtime.NumGoroutine()
@@ -623,7 +624,16 @@ func c10exec(c *h.Ctx, cs *h.Case) {
 			cl = fix.NewCluster(2, tk[1] == "tcp")
 			cl.L.Check = onet.CheckNone
 			tree = cl.Roster.GenerateBinaryTree()
+			srvTCP, wsBase = tk[1] == "tcp", c10wsStarts()
 			cs.Impl = append(cs.Impl, "ok")
+			continue
+		case "srvstate":
+			if cl == nil || len(tk) != 1 {
+				bad()
+				continue
+			}
+			cs.Impl = append(cs.Impl, c10srvstate(cs, cl.Servers[0], srvTCP, wsBase, closedOnce))
+			outcome = append(outcome, cs.Impl[len(cs.Impl)-1])
 			continue
 		case "lnstress":
 			ns, e1 := 0, error(nil)
@@ -1539,6 +1549,19 @@ func c10gen(c *h.Ctx, yield func(*h.Case)) {
 		c.Count("class=" + class)
 		f0 := strings.Fields(ops[0])
 		c.Count("transport=" + f0[len(f0)-1])
+		if strings.HasPrefix(class, "server:") {
+			// what the server holds on to (ports, websocket goroutine, database) is read at the start
+			// and after every Close
+			var with []string
+			for i, o := range ops {
+				with = append(with, o)
+				if i == 0 || strings.HasPrefix(o, "srvclose") {
+					with = append(with, "srvstate")
+					c.Count("op=srvstate")
+				}
+			}
+			ops = with
+		}
 		for i := range ops {
 			if !strings.HasPrefix(ops[i], "c10 ") {
 				ops[i] = "c10 " + ops[i]
